@@ -145,6 +145,13 @@ class SymExec:
     def fresh(self, prefix):
         return fresh(prefix)
 
+    @property
+    def cond_phis(self):
+        t = self.__dict__.get("_cond_phis")
+        if t is None:
+            t = self.__dict__["_cond_phis"] = {}
+        return t
+
     def const_value(self, def_path):
         if def_path in self.const_cache:
             return self.const_cache[def_path]
@@ -793,6 +800,8 @@ class SymExec:
         self.refine(e["cond"], cond, True)
         refined_then = self._refined[n_ref:]
         del self._refined[n_ref:]
+        ckey, cpol = self._cond_key(cond)
+        self._apply_cond_phis(ckey, cpol)
         v1 = self.eval(e["then"])
         self.pc.pop()
         s1 = self.st
@@ -800,6 +809,7 @@ class SymExec:
         self.pc.append((e, "else", cond))
         self.add_fact(cond, False)
         self.refine(e["cond"], cond, False)
+        self._apply_cond_phis(ckey, not cpol if ckey is not None else cpol)
         v2 = self.eval(e["else"]) if e.get("else") is not None else Poly.atom("unit")
         self.pc.pop()
         s2 = self.st
@@ -822,6 +832,25 @@ class SymExec:
                 if type(a) is type(b) and a == b:
                     continue
                 created[k] = v
+            # values joined under a condition that was joined on before in the same way differ from the earlier phi by a
+            # common offset: reuse it (x = if c {xend} else {x + h} after if c {h = xend - x}  gives  x = X + phi_h)
+            if ckey is not None:
+                known = self.cond_phis.get(ckey, [])
+                for k in list(created):
+                    a, b = s1.get(k, self.lazy.get(k)), s2.get(k, self.lazy.get(k))
+                    if not (isinstance(a, Poly) and isinstance(b, Poly)):
+                        continue
+                    vt, ve = (a, b) if cpol else (b, a)
+                    for P, pt, pe in known:
+                        r1, r2 = vt - pt, ve - pe
+                        if r1 == r2 and P not in r1.atoms():
+                            self.st[k] = Poly.atom(P) + r1
+                            created[k] = self.st[k]
+                            break
+                    else:
+                        pa = created[k].single_atom() if isinstance(created[k], Poly) else None
+                        if pa and pa in DEFS and DEFS[pa][0] == "phi":
+                            self.cond_phis.setdefault(ckey, []).append((pa, vt, ve))
             if created:
                 self.log("joinphi", node=e, created=created)
             nphi = sum(1 for k in self.st if isinstance(self.st[k], Poly) and isinstance(s1.get(k), Poly) and isinstance(s2.get(k), Poly)
@@ -833,7 +862,47 @@ class SymExec:
             return v2
         if s2 is None:
             return v1
+        if isinstance(v1, Poly) and isinstance(v2, Poly) and v1 != v2 and ckey is not None:
+            vt, ve = (v1, v2) if cpol else (v2, v1)
+            for P, pt, pe in self.cond_phis.get(ckey, []):
+                r1, r2 = vt - pt, ve - pe
+                if r1 == r2 and P not in r1.atoms():
+                    return Poly.atom(P) + r1
+            res = self.join_val(v1, v2, "if")
+            pa = res.single_atom() if isinstance(res, Poly) else None
+            if pa and pa in DEFS and DEFS[pa][0] == "phi":
+                self.cond_phis.setdefault(ckey, []).append((pa, vt, ve))
+            return res
         return self.join_val(v1, v2, "if") if not (isinstance(v1, Poly) and v1 == v2) else v1
+
+    def _cond_key(self, cond):
+        """(name of the condition's atom with negations stripped, polarity) or (None, True)"""
+        pol = True
+        c = cond
+        for _ in range(4):
+            a = c.single_atom() if isinstance(c, Poly) else None
+            if a is None or a in ("true", "false"):
+                return None, True
+            d = DEFS.get(a)
+            if d and d[0] == "not" and len(d[1]) == 1 and isinstance(d[1][0], Poly):
+                c = d[1][0]
+                pol = not pol
+                continue
+            return a, pol
+        return None, True
+
+    def _apply_cond_phis(self, ckey, truth):
+        """entering a branch of a test on a condition that was tested (and joined) before: the phis created by that join
+        have the value of the corresponding branch here"""
+        if ckey is None or self.st is None:
+            return
+        known = self.cond_phis.get(ckey)
+        if not known:
+            return
+        sub = {P: (pt if truth else pe) for P, pt, pe in known}
+        for k, v in list(self.st.items()):
+            if isinstance(v, Poly) and (v.atoms() & set(sub)):
+                self.st[k] = v.subst(sub)
 
     def e_Match(self, e):
         scrut = self.eval(e["scrut"])
